@@ -29,6 +29,7 @@ def run(project, rep):
     rep.run(S.s_r2_findable, schema, rep)
     rep.run(S.s_r4_contiguity, schema, rep)
     rep.run(S.s_r5_listkinds, schema, rep)
+    rep.run(S.s_r6d_route_independent_constraints, schema, rep)
     rep.run(W.w_r2_leaf_predicate, project, rep)
     rep.run(W.l_r2_escaping, project, rep)
     rep.run(W.l_r2_escaping, project, rep, rule="W-R3", reader_decodable=True)
